@@ -277,7 +277,7 @@ type TxResult struct {
 // on the tentative (cached) state after every message that ran without error.
 func (h *Host) RunTx(msgs []sdk.Msg, hash []byte, idxBase int64, gas uint64, afterMsg func(i int, ctx sdk.Context)) (res TxResult) {
 	for i, m := range msgs {
-		if err := m.ValidateBasic(); err != nil {
+		if err := safeValidate(m); err != nil {
 			return TxResult{Code: "invalid", Err: err.Error(), FailedMsg: i}
 		}
 	}
@@ -400,4 +400,15 @@ func sortedKeys(m map[string]bool) []string {
 	}
 	sort.Strings(out)
 	return out
+}
+
+// safeValidate: stateless validation; a panic inside it rejects the message (C20 speaks about messages that *pass*
+// stateless validation).
+func safeValidate(m sdk.Msg) (err error) {
+	defer func() {
+		if r := recover(); r != nil {
+			err = fmt.Errorf("ValidateBasic panicked: %v", r)
+		}
+	}()
+	return m.ValidateBasic()
 }
